@@ -16,5 +16,5 @@ Extraction "model.ml"
   hist_step History.h_init History.implied_tree
   Lock.exec1 Lock.init Lock.in_critical Lock.holders
   undo_core undo_steps rewrite_headers rewrite_headers_old diffy_body split_lines
-  apply_core spec_apply no_fault one_fault user_view fs_eqb sort_renames final_path
+  crash_prefix apply_core spec_apply no_fault one_fault user_view fs_eqb sort_renames final_path
   gen_acronyms gen_all_styles gen_default_styles gen_vm_core_default gen_vm_scanner_default.
